@@ -12,6 +12,7 @@ from __future__ import annotations
 
 import copy
 import json
+import os
 import time
 from ipaddress import IPv4Address
 
@@ -173,7 +174,7 @@ FW_LISTS = ("internal_inbound_acl", "internal_outbound_acl", "dmz_inbound_acl", 
             "external_outbound_acl")
 
 
-def check_inventory(name, cfg, after_setup=False):
+def check_inventory(name, cfg, after_setup=False, built_from=None):
     """Build the game from ``cfg`` and compare. Returns (fields compared, violations)."""
     from primaite.game.game import PrimaiteGame
     from primaite.simulator.network.hardware.nodes.network.router import Router
@@ -189,7 +190,7 @@ def check_inventory(name, cfg, after_setup=False):
         if _norm(want) != _norm(got):
             V.setdefault((clause, sig), violation(clause, sig, "scenario %s: %s: file says %r, built simulation has %r" % (name, what, want, got)))
 
-    game = PrimaiteGame.from_config(copy.deepcopy(cfg))
+    game = PrimaiteGame.from_config(built_from if built_from is not None else copy.deepcopy(cfg))
     if after_setup:
         # what env.reset() does after loading: the episode starts from what the file declares
         game.setup_for_episode(episode=1)
@@ -452,7 +453,41 @@ def _generalise(path):
 
 
 # ------------------------------------------------------------------------------------------------------------
+def _wrap_task(name):
+    """One scheduler object asked for every episode of its schedule more than twice over: what it hands out after looping
+    back must still build exactly what the files declare (declaration taken from a FRESH scheduler)."""
+    import shutil
+    from primaite.session.episode_schedule import build_scheduler
+
+    tmp = None
+    if name == "generated-with-router":
+        tmp = HE.make_schedule_dir("/var/tmp/primaite-verif-sched20-%d" % os.getpid(), episodes=2)
+        path = tmp
+    else:
+        path = HE.SHIPPED[name]
+    try:
+        sch = build_scheduler(path)
+        n = len(sch.schedule)
+        nf, viols = 0, []
+        for ep in range(2 * n + 1):
+            handed = sch(ep)
+            declared = build_scheduler(path)(ep % n)
+            a, v = check_inventory("%s#ep%d (scheduler used %d times)" % (name, ep, ep + 1), declared, built_from=handed)
+            nf += a
+            for x in v:
+                x["signature"] = "scheduler-reuse:" + x["signature"]
+            viols += v
+            if viols:
+                break
+    finally:
+        if tmp:
+            shutil.rmtree(tmp, ignore_errors=True)
+    return nf, viols
+
+
 def _inv_task(name):
+    if name.startswith("wrap:"):
+        return _wrap_task(name[5:])
     cfg = dict(all_scenarios())[name]()
     n1, v1 = check_inventory(name, cfg)
     n3, v3 = check_inventory(name + " [after episode set-up]", cfg, after_setup=True)
@@ -481,7 +516,8 @@ def run(tier, is_known):
     viols = []
     fields = 0
     per = {}
-    for name, (nf, v) in engine.pmap("c20-inventory", _inv_task, names, chunksize=1):
+    wraps = ["wrap:generated-with-router", "wrap:sched_mini", "wrap:sched_placeholders"] + (["wrap:sched_uc7_variants"] if tier == "thorough" else [])
+    for name, (nf, v) in engine.pmap("c20-inventory", _inv_task, names + wraps, chunksize=1):
         fields += nf
         per[name] = {"fields_compared": nf}
         for x in v:
